@@ -475,9 +475,6 @@ func diffClass(a, b hs.Value) string {
 		}
 		for i := range x.Elems {
 			if d := diffClass(x.Elems[i], y.Elems[i]); d != "" {
-				if strings.HasPrefix(d, "kind:") {
-					return "list-elem-kind"
-				}
 				return d
 			}
 		}
@@ -505,7 +502,7 @@ func diffClass(a, b hs.Value) string {
 		}
 		for _, k := range x.SortedKeys() {
 			if d := diffClass(x.M[k], y.M[k]); d != "" {
-				if strings.HasPrefix(d, "kind:") {
+				if strings.HasPrefix(d, "kind:") && x.Any {
 					return kn + "-value-kind"
 				}
 				return d
@@ -516,11 +513,7 @@ func diffClass(a, b hs.Value) string {
 		if (x.Inner == nil) != (y.Inner == nil) {
 			return "opt-none-some"
 		}
-		d := diffClass(x.Inner, y.Inner)
-		if strings.HasPrefix(d, "kind:") {
-			return "opt-inner-kind"
-		}
-		return d
+		return diffClass(x.Inner, y.Inner)
 	}
 	return "leaf:" + a.Kind().String()
 }
